@@ -988,7 +988,10 @@ enum cc_stat cc_array_iter_remove(CC_ArrayIter *iter, void **out)
  */
 enum cc_stat cc_array_iter_add(CC_ArrayIter *iter, void *element)
 {
-    return cc_array_add_at(iter->ar, element, iter->index++);
+    enum cc_stat status = cc_array_add_at(iter->ar, element, iter->index);
+    if (status == CC_OK)
+        iter->index++;
+    return status;
 }
 
 /**
@@ -1110,7 +1113,7 @@ enum cc_stat cc_array_zip_iter_remove(CC_ArrayZipIter *iter, void **out1, void *
  */
 enum cc_stat cc_array_zip_iter_add(CC_ArrayZipIter *iter, void *e1, void *e2)
 {
-    size_t index = iter->index++;
+    size_t index = iter->index;
     CC_Array  *ar1  = iter->ar1;
     CC_Array  *ar2  = iter->ar2;
 
@@ -1121,6 +1124,7 @@ enum cc_stat cc_array_zip_iter_add(CC_ArrayZipIter *iter, void *e1, void *e2)
 
     cc_array_add_at(ar1, e1, index);
     cc_array_add_at(ar2, e2, index);
+    iter->index++;
 
     return CC_OK;
 }
